@@ -186,3 +186,13 @@ Theorem c16_obj_frame :
     obj_unmarshal decode_into ord o p = (ok, o') -> map fst o' = map fst o.
 Proof. exact obj_unmarshal_keys. Qed.
 Print Assumptions c16_obj_frame.
+
+(* One Positional handler used for many requests answers every request by itself (what the
+   answer is: c16_positional_accepts_exactly / c16_positional_wrap); nothing decoded for an
+   earlier or a concurrent request - accepted or rejected - can show up in a call. *)
+Theorem c16_calls_independent :
+  forall (decode : ty -> bool -> pvalue -> option value) (zero : ty -> value) xs outs names fi ps1 p ps2,
+    positional (FFunc (TCtx :: xs) false outs) names = Ok fi ->
+    nth_error (serve decode zero fi (ps1 ++ p :: ps2)) (length ps1) = Some (wrap decode zero fi p).
+Proof. exact serve_positional. Qed.
+Print Assumptions c16_calls_independent.
